@@ -77,6 +77,7 @@ type cfg struct {
 	// drvPortBuf > 0: the CP's driver-facing port gets this outgoing-buffer size (default 4096) and the driver takes
 	// one message per drvEvery cycles: back-pressure on kernel-completion responses
 	drvPortBuf, drvEvery int
+	only                 map[string]bool // report these signatures only (part mode)
 }
 
 func mkCfg(cuPortBuf int, batch bool, alg string, dispatchers int, cus []cuSpec, kernels []kern) cfg {
@@ -101,6 +102,9 @@ func body(c cfg) explore.Body {
 		w := world.New(x, 4000)
 		var viol *explore.Violation
 		fail := func(sig, f string, a ...any) {
+			if c.only != nil && !c.only[sig] {
+				return // running as a part of another check: that check's oracles only (the first failure of ITS class counts)
+			}
 			if viol == nil {
 				viol = explore.Viol(sig, f, a...)
 			}
@@ -577,6 +581,10 @@ func main() {
 					sc{pre + "portbuf2/1cu/kA+kOne", mkCfg(2, false, alg, d, []cuSpec{small}, []kern{kA, kOne})},
 					sc{pre + "portbuf1/2cu/kZero+kOne+kOne", mkCfg(1, false, alg, d, []cuSpec{small, tiny}, []kern{kZero, kOne, late(kOne, 2)})},
 					sc{pre + "portbuf2/2cu/kFull+kOne", mkCfg(2, false, alg, d, []cuSpec{small, small}, []kern{kFull, late(kOne, 1)})},
+					// a one-entry port and no later kernel on the dispatcher whose only work-group is refused at first:
+					// nothing can flush a forgotten work-group out afterwards (seed C08-9)
+					sc{pre + "portbuf1/1cu/kZero+kOne", mkCfg(1, false, alg, d, []cuSpec{small}, []kern{kZero, kOne})},
+					sc{pre + "portbuf1/2cu/kA+kOne-late1", mkCfg(1, false, alg, d, []cuSpec{small, tiny}, []kern{kA, late(kOne, 1)})},
 				)
 			}
 			if alg != "" {
@@ -623,10 +631,15 @@ func main() {
 	}
 	var scs []harness.Scenario
 	for _, s := range list {
+		if partOf != "" {
+			s.c.only = c08Sigs
+		}
 		b := body(s.c)
 		if partOf != "" {
-			if strings.Contains(s.name, "+") && r.Replay == "" {
-				continue // single kernels: the partition of one grid over the CUs
+			if strings.Contains(s.name, "+") && !strings.Contains(s.name, "portbuf") && r.Replay == "" {
+				// single kernels (the partition of one grid over the CUs), plus the scenarios in which the CU-facing
+				// port refuses a work-group (seed C08-9: a refused last work-group was forgotten)
+				continue
 			}
 			inner := b
 			b = func(x *explore.Exec) *explore.Violation {
